@@ -238,7 +238,7 @@ def fixed_runs(tier):
                     op['cond'] = {'col': 0, 'v': 0.3, 'bad': False}
                 runs.append({'g0': 77, 'twin_state': 78, 'population': [spec],
                              'ops': [{'op': 'app_draw', 'k': 3}, op],
-                             'enum': name + ':' + domain})
+                             'enum': name + ':' + domain, 'cpu_budget': 1500})
     return runs
 
 
